@@ -73,6 +73,23 @@ def _equiv_cases(ctx, rule, file, fname, what, got, want, lang, construct, line=
     return ok_all
 
 
+def _equiv_code(ctx, rule, F, what, a, b, construct, line=None):
+    """Equivalence of two terms that both come from the code (same window encoding on both sides)."""
+    cases = list(zip(window_cases(a), window_cases(b))) if F.lang == 'c' else [(('window>=1', a, BASE_DOM + [sub(V('W'), C(1))]), ('window>=1', b, None))]
+    for (lab, g, dom), (_, w, _) in cases:
+        r = sym.equivalent(g, w, dom, box=BOX)
+        inst = '%s:%s %s [%s]' % (F.file.split('/')[-1], F.name, what, lab)
+        if r[0] == 'equal':
+            ctx.held(rule, inst, r[1])
+        elif r[0] == 'differ':
+            wv = r[1]
+            ctx.violation(rule, F.file, F.name, construct, '%s fails (%s): at %s the two sides are %s and %s  [%s | %s]'
+                          % (what, lab, ', '.join('%s=%s' % kv for kv in sorted(wv.items())), sym.evaluate(g, wv), sym.evaluate(w, wv), sym.show(g)[:160], sym.show(w)[:160]),
+                          line=line, facts={'witness': wv})
+        else:
+            ctx.undecided(rule, inst, r[1])
+
+
 # =================================================================================================================
 def load_kernels(m):
     """-> list of Facts for the five rolling-buffer distance kernels."""
@@ -98,9 +115,16 @@ def rule_band(ctx, F):
     lo, prev = _rename_prev(F.lo)
     if len(prev) > 1:
         raise AnalysisError('unrecognised shape: column lower bound of %s depends on several carried values %s' % (F.name, prev))
-    want_lo = tmax(canon_lo(), V('SC')) if prev else canon_lo()
-    dom_extra = []
-    _equiv_cases(ctx, 'R-BAND', F.file, F.name, 'band lower limit j_lo(i)', lo, want_lo, F.lang, 'band lower limit', F.inner_line)
+    if prev:
+        # the band clause proper: with the pruning start column at 0 the lower limit is the band's
+        _equiv_cases(ctx, 'R-BAND', F.file, F.name, 'band lower limit j_lo(i)', sym.subst(lo, {'SC': C(0)}), canon_lo(), F.lang, 'band lower limit', F.inner_line)
+        # pruning only narrows: band <= j_lo <= max(band, carried start column)  (the start column may be ignored on rows with a free start)
+        lo0 = sym.subst(lo, {'SC': C(0)})          # the code's own band limit (just proved equal to the scheme's)
+        cap = tmax(lo0, V('SC'))
+        _equiv_code(ctx, 'R-BAND', F, 'pruned lower limit stays inside the band', tmax(lo, lo0), lo, 'band lower limit (prune floor)', F.inner_line)
+        _equiv_code(ctx, 'R-BAND', F, 'pruned lower limit never exceeds the carried start column', tmax(lo, cap), cap, 'band lower limit (prune cap)', F.inner_line)
+    else:
+        _equiv_cases(ctx, 'R-BAND', F.file, F.name, 'band lower limit j_lo(i)', lo, canon_lo(), F.lang, 'band lower limit', F.inner_line)
     hi, prevh = _rename_prev(F.hi)
     if prevh:
         raise AnalysisError('unrecognised shape: column upper bound of %s depends on carried values %s' % (F.name, prevh))
@@ -477,7 +501,52 @@ def rule_prune(ctx, F):
             ctx.check(ok3, 'R-PRUNE', F.file, F.name, 'ec_next update', 'ec_next must be set to j + 1 exactly on kept cells; found %s' % (fmt(v3)[:160] if v3 else None), F.inner_line)
             pre = F.renv.get(env)
             ctx.check(pre == ('var', 'i'), 'R-PRUNE', F.file, F.name, 'ec_next reset', 'ec_next must start each row at the row index; found %s' % (fmt(pre) if pre else None), F.outer_line)
+    _prune_vs_psi(ctx, F, ecv, scs)
     ctx.sample({'kernel': F.name, 'prune': 'cell %s max_dist' % op, 'max_dist': fmt(b)[:160]})
+
+
+def _prune_vs_psi(ctx, F, ecv, scs):
+    """PrunedDTW's two carried columns assume that a cell is reachable only from cells of the DP matrix.  With psi-relaxation there are free
+    starts outside it: (a) row -1, columns <= psi_2b - 1, so the first row may not stop before column psi_2b: the initial end column must be
+    >= psi_2b; (b) column -1 of every row i < psi_1b, so the carried start column may not be applied to those rows."""
+    amap = F.amap
+    if ecv:
+        init = F.env0.get(ecv)
+        try:
+            t = kernels.term(init, amap) if init is not None else None
+        except sym.Unsupported:
+            t = None
+        if t is None:
+            ctx.undecided('R-PRUNE', '%s initial end column' % F.name, 'no initial value of %s found' % ecv)
+        else:
+            r = sym.equivalent(tmin(sub(t, V('PSI2B')), C(0)), C(0), PSI_DOM, box=PSI_BOX)
+            if r[0] == 'equal':
+                ctx.held('R-PRUNE', '%s initial end column >= psi_2b' % F.name, r[1])
+            elif r[0] == 'differ':
+                ctx.violation('R-PRUNE', F.file, F.name, 'initial end column vs psi_2b',
+                              'pruning starts with end column %s = %s, but with psi_2b = %s the first row has free starts up to column psi_2b: if cell (0, 0) exceeds max_dist the row is '
+                              'abandoned before those cells are computed, and the pruned result differs from the unpruned one' % (ecv, sym.show(t), r[1].get('PSI2B')),
+                              F.outer_line, facts={'witness': r[1]})
+            else:
+                ctx.undecided('R-PRUNE', '%s initial end column' % F.name, r[1])
+    if len(scs) == 1:
+        sc_atom = scs[0] + '@prev'
+        # row 0 pruned entirely at column 0 (cell (0, 0) > max_dist) leaves sc = 1; row 1 still has a free start when psi_1b = 2
+        val = {'L1': 5, 'L2': 5, 'W': 5, 'i': 1, 'PSI1B': 2, 'PSI1E': 0, 'PSI2B': 0, 'PSI2E': 0, sc_atom: 1}
+        for a in sym.atoms(F.lo):
+            val.setdefault(a, 0)
+        try:
+            v = max(sym.evaluate(F.lo, val), sym.evaluate(F.lo, dict(val, i=2)))     # rows 1 and 2 = psi_1b both read a free cell (i-1, -1) or (i, -1)
+        except Exception:  # noqa
+            v = None
+        if v is None:
+            ctx.undecided('R-PRUNE', '%s start column on free-start rows' % F.name, 'cannot evaluate the column lower bound')
+        else:
+            ctx.check(v == 0, 'R-PRUNE', F.file, F.name, 'start column on free-start rows',
+                      'with psi_1b = 2 rows 1 and 2 can start from a free cell of column -1, but the start column %s = 1 carried from row 0 (cell (0, 0) > max_dist) is applied to them '
+                      '(lower column bound %s = %s at L1=L2=W=5, i in {1, 2}): the free start is skipped and the pruned result differs from the unpruned one'
+                      % (scs[0], sym.show(F.lo)[:120], v), F.inner_line,
+                      facts={'witness': {k: w for k, w in val.items() if k in ('L1', 'L2', 'W', 'i', 'PSI1B', sc_atom)}})
 
 
 def _is_prune(c, stored):
@@ -793,7 +862,13 @@ def kernel_kind(D):
 
 
 def _conv_class(e, raw_atoms):
-    """How a threshold expression is derived from the raw setting: 'squared' (pow(x,2) / x*x), 'identity', 'inner_val', or None."""
+    """How a threshold expression is derived from the raw setting: 'squared' (pow(x,2) / x*x), 'identity', 'mixed' (different conversions on
+    different paths), or None.  Conditional values are classified leaf by leaf; constant leaves (INFINITY, 0: option off) carry no domain."""
+    if e[0] == 'cond':
+        ks = {_conv_class(e[2], raw_atoms), _conv_class(e[3], raw_atoms)} - {None}
+        if len(ks) > 1:
+            return 'mixed'
+        return ks.pop() if ks else None
     kinds = set()
     for x in walk_expr(e):
         if x[0] == 'call':
@@ -840,7 +915,7 @@ def rule_dom_c(ctx, F):
         ctx.check(cls == want, 'R-DOM', F.file, F.name, '%s conversion' % nm,
                   'the point distance of this kernel is %s, so accumulated costs are %s; the %s threshold compared/added to them is %s'
                   % ('|x-y| / sqrt' if kind == 'euclidean' else '(x-y)^2', 'not squared' if kind == 'euclidean' else 'squared', nm,
-                     'squared (pow(.,2))' if cls == 'squared' else 'used as given'), F.inner_line, detail=cls)
+                     'squared (pow(.,2))' if cls == 'squared' else ('squared on some paths only: %s' % fmt(e)[:120] if cls == 'mixed' else 'used as given')), F.inner_line, detail=cls)
     # the pruning bound fed into max_dist: ub_euclidean* of the same kind, converted like a threshold
     md = F.max_dist_expr
     if md is not None:
